@@ -15,6 +15,10 @@ def sizesLine (line : String) : String :=
   | "walbatch" :: ss =>
     -- every entry's encoded size (data + at most 40 bytes of codec fields) is within the maximum: accepted, readable
     if (ss.map nat!).all (fun n => appendAcceptsSize (n + 40)) then "ok readable" else "err"
+  | "walreopen" :: _pre :: ss =>
+    -- the same through a restart: what was accepted is still readable after Close and Open (recovery re-reads the last
+    -- batch whatever its size)
+    if (ss.map nat!).all (fun n => appendAcceptsSize (n + 40)) then "ok readable" else "err"
   | "multi" :: _segSize :: _pre :: ss =>
     -- a batch far below the segment size limit: accepted iff every entry is, never sealing
     if (ss.map nat!).all appendAcceptsSize then "ok readable" else "err"
